@@ -285,11 +285,15 @@ def run_rule(ctx, rule_name, part=0, parts=1):
         if ci % parts != part:
             continue
         base = [(a, v) for a, v in combo if v is not ABSENT]
-        for foreign in (False, True, "colon"):
-            assignment = base + ([(FOREIGN_ATTR, "x")] if foreign is True else [("xml:lang", "en")] if foreign == "colon" and "xml:lang" not in table else [])
-            if foreign == "colon" and ci % 3:
+        for foreign in (False, True, "colon", "two"):
+            assignment = base + ([(FOREIGN_ATTR, "x")] if foreign is True else [("xml:lang", "en")] if foreign == "colon" and "xml:lang" not in table
+                                 else [(FOREIGN_ATTR, "x"), ("verifForeignAttribute2", "y")] if foreign == "two" else [])
+            if foreign in ("colon", "two") and ci % 3:
                 continue
             orders = [assignment]
+            if foreign and len(assignment) > 1 and ci % 2 == 0:
+                # the foreign attribute(s) entered first: whatever else is wrong with the node comes after them
+                orders.append(list(reversed(assignment)))
             if ctx.tier == "thorough" and len(assignment) > 1:
                 if len(assignment) <= 4:
                     orders = [list(p) for p in itertools.permutations(assignment)]
@@ -305,6 +309,16 @@ def run_rule(ctx, rule_name, part=0, parts=1):
                     ctx.sample({"rule": rule_name, "element": el, "attributes": order, "expected_violations": exp,
                                 "failfast": ff, "collecting": cod})
     if part == 0:
+        # values that only differ from a listed one by white space around (or inside) them are not listed
+        valid = [(a, spec[1] if len(spec) > 1 else "v") for a, spec in table.items() if spec[0] is True]
+        for a, spec in table.items():
+            for v in spec[1:]:
+                for padded in (" " + v, v + " ", v + "\n", "\t" + v + " ", v[:1] + " " + v[1:]):
+                    if padded in spec[1:]:
+                        continue
+                    judge(ctx, rule_name, elements[n_cases % len(elements)], kids, table, [x for x in valid if x[0] != a] + [(a, padded)])
+                    ctx.count("padded_enumeration_values")
+                    n_cases += 1
         introspection(ctx, rule_name, element, kids, table)
     apr = ctx.cover.setdefault("assignments_per_rule", {})
     apr[rule_name] = apr.get(rule_name, 0) + n_cases
